@@ -18,7 +18,7 @@
 //! Everything else is copied verbatim.
 
 use crate::printer::{norm, norm_str, OutLine, Printer, Splices};
-use crate::rewrite::{mark_fn_body, AtAnchor, Closures, ForEach, Maps, Marker, OptDesugar, Rw};
+use crate::rewrite::{mark_fn_body, AtAnchor, Closures, ContinueElim, ForEach, Maps, Marker, OptDesugar, Rw};
 use quote::ToTokens;
 use serde_json::{json, Value as J};
 use std::collections::{HashMap, HashSet};
@@ -480,6 +480,11 @@ pub fn run(repo: &str, unit_path: &str, canary: bool) -> std::result::Result<Run
                     let mut fe = ForEach { log: vec![] };
                     fe.visit_block_mut(&mut body);
                     rewrites.extend(fe.log.drain(..).map(|mut l| { l["in"] = json!(target); l["file"] = json!(file); l }));
+                }
+                {
+                    let mut ce = ContinueElim { log: vec![] };
+                    ce.visit_block_mut(&mut body);
+                    rewrites.extend(ce.log.drain(..).map(|mut l| { l["in"] = json!(target); l["file"] = json!(file); l }));
                 }
                 // R11: closures — lift the n-th closure's body into a function of its own (`closure=<n> sig="..."`),
                 // and/or replace closures at their use site (`//@closuremap n => expr`).
